@@ -15,7 +15,7 @@ from .. import models
 from ..core import RunResult, adigest, mix
 from ..driver import pristine_library_state
 from .hist_common import SAME, TAU, quiet
-from .hist_common import call_value as _call_value
+from .hist_common import call_value as _call_value, maybe_interrupted_call
 
 NAME = "B9h"
 PROPERTY = "C09"
@@ -25,7 +25,7 @@ REQUIRED_PROBES = {"quick": ["complex_operator", "two_repetitions", "method_repe
 COMPONENTS = {"real": ["toqito.nonlocal_games.QuantumHedging (max/min_prob_outcome_a_primal/dual)", "toqito.channels.partial_trace (cvxpy branch)", "toqito.perms.permutation_operator", "cvxpy + SCS/Clarabel"], "stub": []}
 RULE = ("one run = one QuantumHedging object (1 or 2 repetitions; operator Q random PSD of norm <= 1, rank one, the Molina-Watrous family, or a product Q1 (x) Q1; real and complex), sometimes a second object of the "
         "same size used in between, and 3..6 calls of the four value methods in seeded order with repetition; non-trivial = >=2 distinct methods, one repeated, and 0 < min < max; distinct = distinct digest of (Q, repetitions, operation sequence)")
-SHRINK_ORDER = ["config", "game", "ops"]
+SHRINK_ORDER = ["config", "game", "ops", "intr"]
 METHODS = ["max_prob_outcome_a_primal", "max_prob_outcome_a_dual", "min_prob_outcome_a_primal", "min_prob_outcome_a_dual"]
 
 
@@ -114,6 +114,7 @@ def run(cs, tier, run_index):
     for k, nm in enumerate(names):
         if interloper is not None and st.draw(2):
             call_value(getattr(interloper, nm), res, nm + "(other object)")
+        maybe_interrupted_call(cs, res, getattr(obj, nm))
         out = call_value(getattr(obj, nm), res, nm)
         res.log.add("op", k, nm, out[1] if out[0] == "ok" else out[:2])
         res.checks_sim += 1
